@@ -41,6 +41,25 @@ def Elem(base, allow=(), g=None):
     return m
 
 
+def early_exits(g, b, lp, refusal=("err",)):
+    """edges that leave loop lp other than (a) the exhaustion edge (`next(..)` is None) of an iterator advanced inside it
+    and (b) edges that lead only to refusal returns: `break` / early `return` out of a loop that must visit every item"""
+    out = []
+    for e in g.edges:
+        if e.block not in lp[1] or e.target in lp[1]:
+            continue
+        c = e.cond
+        if c[0] == "variant" and c[2] == "None" and c[3] and isinstance(c[1], tuple) and c[1][0] == "call" and c[1][1].split("::")[-1] == "next":
+            continue
+        kinds = set(rd.kind for rd in e.leads)
+        if kinds and kinds <= set(refusal):
+            continue
+        if not e.leads:
+            continue            # panic path
+        out.append(e)
+    return out
+
+
 def loop_covers_all(ctx, rule, f, edge, source_pat, desc, key=None, refusal=("err",)):
     """the innermost loop containing edge iterates a source matching source_pat without truncating
     adapters, and its header dominates every accepting return"""
